@@ -8,6 +8,7 @@ pub open spec fn is_sub(t: &str, s: &str, a: int, b: int) -> bool {
     &&& blen(t) == b - a
     &&& forall|k: int| 0 <= k <= b - a ==> (#[trigger] is_cb(t, k) <==> is_cb(s, a + k))
     &&& forall|x: int, y: int| 0 <= x <= y <= b - a ==> (#[trigger] no_nl(t, x, y) <==> no_nl(s, a + x, a + y))
+    &&& forall|x: int, y: int| 0 <= x <= y <= b - a ==> (#[trigger] ws_only(t, x, y) <==> ws_only(s, a + x, a + y))
 }
 
 pub mod str_axioms {
@@ -19,6 +20,7 @@ pub uninterp spec fn fb_not_nl(s: &str) -> bool;              // non-empty and f
 pub uninterp spec fn line_of(s: &str, i: int) -> nat;         // 0-based line containing byte offset i
 pub uninterp spec fn col_of(s: &str, i: int) -> nat;          // byte offset of i within its line
 pub uninterp spec fn char_len(c: char) -> nat;                // `char::len_utf8`
+pub uninterp spec fn ws_only(s: &str, a: int, b: int) -> bool; // bytes a..b are all whitespace
 
     #[verifier::external_body]
     pub broadcast proof fn axiom_cb_ends(s: &str)
@@ -49,6 +51,11 @@ pub uninterp spec fn char_len(c: char) -> nat;                // `char::len_utf8
             (no_nl(s, a, b) && no_nl(s, b, c)) ==> no_nl(s, a, c),
     {}
 
+    #[verifier::external_body]
+    pub broadcast proof fn axiom_ws_empty(s: &str, a: int)
+        ensures #[trigger] ws_only(s, a, a),
+    {}
+
     /// Rust allocations are at most isize::MAX bytes
     #[verifier::external_body]
     pub broadcast proof fn axiom_blen_bound(s: &str)
@@ -64,7 +71,7 @@ pub uninterp spec fn char_len(c: char) -> nat;                // `char::len_utf8
 }
 pub use str_axioms::*;
 broadcast use {str_axioms::axiom_cb_ends, str_axioms::axiom_char_len, str_axioms::axiom_same_line,
-    str_axioms::axiom_no_nl_empty, str_axioms::axiom_blen_bound, str_axioms::axiom_line_mono};
+    str_axioms::axiom_no_nl_empty, str_axioms::axiom_blen_bound, str_axioms::axiom_line_mono, str_axioms::axiom_ws_empty};
 
 #[verifier::external_body]
 pub fn vs_len(s: &str) -> (r: usize)
